@@ -53,7 +53,7 @@ impl Jail {
         let top = std::env::temp_dir().join(format!("rpm_verif_c12_{}_{}", std::process::id(), tag));
         let _ = std::fs::remove_dir_all(&top);
         let jail = top.join("j1/j2/jail");
-        std::fs::create_dir_all(jail.join("out")).unwrap();
+        std::fs::create_dir_all(jail.join("out/sub")).unwrap();
         std::fs::write(jail.join("out/victim"), b"precious").unwrap();
         Jail { top, jail }
     }
@@ -74,7 +74,7 @@ impl Drop for Jail {
     }
 }
 
-fn encode_pkg(entries: &[Value], jail: &Path) -> Vec<u8> {
+fn encode_pkg(entries: &[Value], flat: bool, jail: &Path) -> Vec<u8> {
     let n = entries.len();
     let mut dirnames: Vec<Vec<u8>> = vec![];
     let mut dirindex = vec![];
@@ -86,10 +86,12 @@ fn encode_pkg(entries: &[Value], jail: &Path) -> Vec<u8> {
     let mut archive = vec![];
     for (i, e) in entries.iter().enumerate() {
         let comps: Vec<String> = e["comps"].as_array().unwrap().iter().map(|c| c.as_str().unwrap().to_string()).collect();
-        let dir = format!("/{}", comps[..comps.len() - 1].iter().map(|c| format!("{c}/")).collect::<String>());
+        let full_dir = format!("/{}", comps[..comps.len() - 1].iter().map(|c| format!("{c}/")).collect::<String>());
+        // flat: "/" is the only directory name and the base name holds the rest of the path
+        let (dir, base) = if flat { ("/".to_string(), comps.join("/")) } else { (full_dir.clone(), comps[comps.len() - 1].clone()) };
         let di = match dirnames.iter().position(|d| d == dir.as_bytes()) { Some(k) => k, None => { dirnames.push(dir.clone().into_bytes()); dirnames.len() - 1 } };
         dirindex.push(di as u32);
-        basenames.push(comps[comps.len() - 1].clone().into_bytes());
+        basenames.push(base.into_bytes());
         let kind = e["kind"].as_str().unwrap();
         let data = e["data"].as_str().unwrap().as_bytes().to_vec();
         let target = if e["target"]["abs"].as_bool().unwrap() {
@@ -103,7 +105,7 @@ fn encode_pkg(entries: &[Value], jail: &Path) -> Vec<u8> {
         sizes.push(content.len() as u32);
         links.push(if kind == "link" { target.into_bytes() } else { vec![] });
         digests.push(if kind == "file" { hex(&Sha256::digest(&content)).into_bytes() } else { vec![] });
-        archive.extend_from_slice(&newc_entry(&format!(".{}{}", dir, comps[comps.len() - 1]), mode, &content, i as u32 + 1));
+        archive.extend_from_slice(&newc_entry(&format!(".{}{}", full_dir, comps[comps.len() - 1]), mode, &content, i as u32 + 1));
     }
     archive.extend_from_slice(&newc_entry("TRAILER!!!", 0, &[], 0));
     let bv = |xs: &Vec<Vec<u8>>| Value::Array(xs.iter().map(|x| json!(x)).collect());
@@ -167,10 +169,11 @@ pub fn run(args: &Args) {
             if line.trim().is_empty() { continue; }
             let c: Value = serde_json::from_str(line).unwrap();
             let j = Jail::new(&format!("g{i}"));
-            let bytes = encode_pkg(c["entries"].as_array().unwrap(), &j.jail);
+            let flat = c["flat"].as_bool().unwrap_or(false);
+            let bytes = encode_pkg(c["entries"].as_array().unwrap(), flat, &j.jail);
             let (outcome, outside, inside) = run_extract(&j, &bytes);
             let ev = if outcome.starts_with("panic") { "Panic" } else { "Extract" };
-            t.emit(json!({"event":ev,"case":i,"entries":c["entries"],"naive_escapes":c["naive_escapes"],"model_benign":c["benign"],
+            t.emit(json!({"event":ev,"case":i,"entries":c["entries"],"flat":flat,"naive_escapes":c["naive_escapes"],"model_benign":c["benign"],
                           "outcome":outcome,"outside_diff":outside,"inside":inside}));
         }
     }
